@@ -74,6 +74,8 @@ class HampelFilter(_SeriesToSeriesTransformer):
         """
         self.check_is_fitted()
         Z = check_series(Z)
+        # outliers are replaced in a copy, never in the caller's data
+        Z = Z.copy()
 
         # multivariate
         if isinstance(Z, pd.DataFrame):
